@@ -191,15 +191,25 @@ def mk_seq(first, depth):
 
 def obligations(tier):
     obs = []
-    depth = 2 if tier == "quick" else 3
-    # thorough: first events on remote 0 only -- the harness is symmetric in the two remotes (pre-state, later events and the
-    # model treat them alike), so a first event on remote 1 is the mirror image of one covered here
-    for first in (range(2 * NK) if tier == "quick" else range(0, 2 * NK, 2)):
+    q = tier == "quick"
+    # both tiers: depth 2 for every first event
+    for first in range(2 * NK):
         obs.append(Obligation(
-            name="nstart-first%02d-depth%d" % (first, depth), make=mk_seq(first, depth),
-            timeout=600 if tier == "quick" else 3000, functions=FUNCS,
+            name="nstart-first%02d-depth2" % first, make=mk_seq(first, 2),
+            timeout=600 if q else 1200, functions=FUNCS,
             symbolic={"pre-state per remote": "open? x retransmitted? x backlog 0..2", "events after the first": "index 0..15 each (submit CON / NON, ACK, RST, ACK with wrong MID, timer, transport error, ACK or RST from a stranger with the open MID; per remote)",
                       "peer earlier used the same message IDs in its own requests": "bool"},
-            concrete={"first event": first, "depth": depth, "MAX_RETRANSMIT": 1, "remotes": 2},
+            concrete={"first event": first, "depth": 2, "MAX_RETRANSMIT": 1, "remotes": 2},
             stubs=["SimLoop", "RecTokenManager", "RecMessageInterface", "random stub"]))
+    if not q:
+        # thorough adds depth 3 for two first events (submit CON / ACK on remote 0).  Depth 3 for all 14 first events of the
+        # earlier 7-kind catalogue was discharged once (4215 s on 8 cores); after the catalogue grew there was no time to
+        # run the full sweep again, so only what was re-run end to end is registered.
+        for first in (0, 4):
+            obs.append(Obligation(
+                name="nstart-first%02d-depth3" % first, make=mk_seq(first, 3), timeout=3000, functions=FUNCS,
+                symbolic={"pre-state per remote": "open? x retransmitted? x backlog 0..2", "events after the first": "2 indices (the middle one over the 14 events without the stranger's)",
+                          "peer earlier used the same message IDs in its own requests": "bool"},
+                concrete={"first event": first, "depth": 3, "MAX_RETRANSMIT": 1, "remotes": 2},
+                stubs=["SimLoop", "RecTokenManager", "RecMessageInterface", "random stub"]))
     return obs
